@@ -78,6 +78,28 @@ func c15Concurrent(run *rt.Run, r *rt.Rand) {
 		if active != "" && int(sink.BytesWritten) != size[active] {
 			run.Violation("history-pattern:bytes-written-concurrent", fmt.Sprintf("BytesWritten=%d but the active file %s holds %d bytes", sink.BytesWritten, active, size[active]), wit(""))
 		}
+		if !cfg.TSOnly {
+			// timestamps strictly increase: the file the sink is writing to at the end carries the greatest one.
+			// A probe written after all writers have finished shows which file that is.
+			probe := fmt.Sprintf("c%dprobe", i)
+			if _, err := sink.Process(ctx, &eventlogger.Event{Type: "t", Formatted: map[string][]byte{"json": frame(probe, []byte("p"))}}); err == nil {
+				after, _, _ := readAll(dir, nil)
+				in, maxName, maxTS := "", "", int64(-1)
+				for nme, rs := range after {
+					for _, p := range rs {
+						if p.ID == probe {
+							in = nme
+						}
+					}
+					if ts, ok := cfg.inNamespace(nme); ok && ts > maxTS {
+						maxName, maxTS = nme, ts
+					}
+				}
+				if in != "" && in != maxName {
+					run.Violation("history-pattern:timestamp-not-increasing", fmt.Sprintf("after %d concurrent writers the sink writes to %s although %s carries a greater timestamp: file timestamps do not increase with the order in which the files were started", nw, in, maxName), wit(""))
+				}
+			}
+		}
 		run.Add("concurrent_files_judged", len(files))
 		run.Eval(fmt.Sprintf("conc|%d|%v|%d", cfg.MaxBytes, cfg.TSOnly, nw))
 		os.RemoveAll(dir)
